@@ -78,6 +78,7 @@ type w1Config struct {
 	rawSender        bool // two raw senders (w1_raw_test.go) take part: hand-built payloads with unusual host arguments and rows the aggregator rejects
 	handlerPause     int  // 0: handlers run through; 1: handlers of selected historic requests pause between two rows (w1_pause_test.go); 2: same, and every insert takes a few milliseconds
 	chLatency        bool // every ClickHouse insert takes 1-50 ms of fake time (not a fault)
+	diskless         bool // the agents run with --max-disk-size=0 (disk cache switched off): unsent seconds live in memory only; no agent restarts in these runs
 }
 
 type w1Replica struct {
@@ -370,6 +371,16 @@ func w1Run(t *testing.T, r *verifsim.Run) {
 	r.Config["graceful_aggregator_stops"] = cfg.gracefulAggStops
 	cfg.remoteWindow = c.Intn(2, "remote_short_window") == 1
 	r.Config["remote_short_window_changes"] = cfg.remoteWindow
+	// disk cache switched off (--max-disk-size=0, the documented runtime switch): hash-derived, so that the
+	// choice vector of every other run keeps its meaning. Unsent seconds then live only in the in-memory
+	// historic queue or in a historic sender's hands; an agent restart would lose them legitimately, so
+	// these runs have none.
+	cfg.diskless = c.Keyed(5, 7100) == 1
+	if cfg.diskless {
+		cfg.agentCrashes, cfg.gracefulStops = false, false
+		r.Config["graceful_agent_stops"] = false
+	}
+	r.Config["agent_disk_cache_off"] = cfg.diskless
 	r.Config["agents"], r.Config["run_len_s"], r.Config["historic_window_s"] = cfg.agents, cfg.runLen, cfg.window
 	r.Config["short_window"], r.Config["inserters"], r.Config["save_immediately"] = cfg.shortWindow, cfg.inserters, cfg.saveImm
 	r.Config["receive_budget"], r.Config["keys"], r.Config["faulty"] = cfg.receiveBudget, cfg.keys, cfg.faulty
@@ -522,6 +533,9 @@ func (w *w1World) startAgent(a int, fromDir string) {
 	cfg.HistoricWindow = uint(w.cfg.window)
 	cfg.SaveSecondsImmediately = w.cfg.saveImm
 	cfg.SampleBudget = 4 << 20 // sampling must not bind (C03's premise)
+	if w.cfg.diskless {
+		cfg.MaxHistoricDiskSize = 0
+	}
 	getConfigResult := w1ConfigResult()
 	mappingsCache := pcache.NewMappingsCache(data_model.NewChunkedStorageNop(), 1<<20, 86400)
 	ag, err := agent.MakeAgent("tcp4", dir, "", nil, cfg, inst.host, format.TagValueIDComponentAgent, inst.meta, mappingsCache,
